@@ -552,13 +552,32 @@ def _describe(cfg: StreamerConfiguration):
 SYS_LOST = "streamer_config:print-parse:system-type-xdma-parses-back-as-reg"
 
 
+def _own_opt_table():
+    """Option classes by their textual name, written down here (not taken from STREAMER_OPT_MAP, which the parser under test uses)."""
+    from snaxc.accelerators.streamers import extensions as E
+    from snaxc.accelerators.streamers import streamers as SS
+
+    table = {"b": SS.HasBroadcast, "bm": SS.HasByteMask, "c": SS.HasChannelMask, "a": SS.HasAddressRemap, "maxpool_ext": E.MaxPoolExtension,
+             "memset_ext": E.MemSetExtension, "t": E.TransposeExtension, "add_ext": E.AddExtension, "add_ext_long": E.AddLongExtension,
+             "rescale_down_ext": E.RescaleDownExtension, "rescale_up_ext": E.RescaleUpExtension}
+    for k, cls in table.items():
+        if cls().name != k:
+            raise HarnessError(f"option table of the harness is stale: {cls.__name__}.name is {cls().name!r}, not {k!r}")
+    return table
+
+
+_OWN_OPTS: dict = {}
+
+
 def prop_streamer(r):
+    if not _OWN_OPTS:
+        _OWN_OPTS.update(_own_opt_table())
     streamers = []
     for s in r["streamers"]:
         for o in s["opts"]:
-            if o not in STREAMER_OPT_MAP:
+            if o not in _OWN_OPTS:
                 raise Outside(f"unknown option {o}")
-        streamers.append(Streamer(StreamerType(s["type"]), list(s["temp"]), list(s["spat"]), [STREAMER_OPT_MAP[o]() for o in s["opts"]]))
+        streamers.append(Streamer(StreamerType(s["type"]), list(s["temp"]), list(s["spat"]), [_OWN_OPTS[o]() for o in s["opts"]]))
     cfg = StreamerConfiguration(streamers, StreamerSystemType(r["system"]))
     attr = StreamerConfigurationAttr(cfg)
     text, back = _roundtrip(attr, "streamer_config")
